@@ -607,6 +607,10 @@ func (c *Conn) Write(payload []byte) (int, error) {
 	if errors.Is(err, context.Canceled) && errors.Is(context.Cause(ctx), context.DeadlineExceeded) {
 		return len(payload), dtlserrors.ErrDeadlineExceeded
 	}
+	if errors.Is(err, context.Canceled) && c.isConnectionClosed() {
+		// Close interrupted the write (DTLS 1.3 waits for the FSM with this context).
+		return len(payload), ErrConnClosed
+	}
 
 	return len(payload), err
 }
